@@ -24,6 +24,8 @@ ghost("ctx_scenario", "val")   # value of context.scenario (ABSENT when not set 
 ghost("ctx_feature", "val")
 ghost("ctx_aborted", "bool")
 ghost("ctx_saved_scenario", "array")
+ghost("ctx_rule", "val")       # value of context.rule (ABSENT when not set in any open scope)
+ghost("ctx_saved_rule", "array")
 ghost("npops", "int")
 ghost("ncleanup_runs", "int")
 
@@ -42,6 +44,9 @@ global_const("ExceptionUtil", ("module", "ExceptionUtil"))
 contract("lib:textutil.text", trusted=True, pos_params=["value"], pure=True, result="str",
          doc="behave.textutil.text(): conversion to text (A-noeffect)")
 
+# the element a failing before_tag/after_tag hook is attributed to: innermost of scenario, rule, feature
+macro("hook_target", [], "ite(G_ctx_scenario is ABSENT, ite(G_ctx_rule is ABSENT, G_ctx_feature, G_ctx_rule), G_ctx_scenario)")
+
 # outcome alphabet of a step function (C01/C02)
 RETURNS, ASSERT_FAIL, EXCEPTION, NOT_IMPLEMENTED, KBI, SKIP_SCENARIO = range(6)
 
@@ -56,27 +61,33 @@ shape("Configuration", name="any", name_re="any", tag_expression="any", reporter
 contract("abs:Context._push", trusted=True, params={"self": "ref:Context"}, pos_params=["self", "layer"],
          defaults={"layer": None},
          modifies=["G_ctx_depth"],
-         ghost_stores=[("ctx_saved_scenario", "G_ctx_depth", "G_ctx_scenario")],
+         ghost_stores=[("ctx_saved_scenario", "G_ctx_depth", "G_ctx_scenario"),
+                       ("ctx_saved_rule", "G_ctx_depth", "G_ctx_rule")],
          ensures={"deeper": "G_ctx_depth == old(G_ctx_depth) + 1"},
          doc="opens a scope")
 contract("abs:Context._pop", trusted=True, params={"self": "ref:Context"}, pos_params=["self"],
-         modifies=["G_ctx_depth", "G_ctx_scenario", "G_npops", "G_bad", "G_ncleanup_runs"],
+         modifies=["G_ctx_depth", "G_ctx_scenario", "G_ctx_rule", "G_npops", "G_bad", "G_ncleanup_runs"],
          raises=[Raises("Exception", when="pop_raises(G_npops)",
                         ensures={"scope-closed": "G_ctx_depth == old(G_ctx_depth) - 1 and G_npops == old(G_npops) + 1 "
                                                  "and G_ctx_scenario == old(G_ctx_saved_scenario(G_ctx_depth - 1)) "
+                                                 "and G_ctx_rule == old(G_ctx_saved_rule(G_ctx_depth - 1)) "
                                                  "and G_bad == old(G_bad) + 1"})],
          ensures={"scope-closed": "G_ctx_depth == old(G_ctx_depth) - 1 and G_npops == old(G_npops) + 1 "
-                                  "and G_ctx_scenario == old(G_ctx_saved_scenario(G_ctx_depth - 1)) and G_bad == old(G_bad)"},
+                                  "and G_ctx_scenario == old(G_ctx_saved_scenario(G_ctx_depth - 1)) "
+                                  "and G_ctx_rule == old(G_ctx_saved_rule(G_ctx_depth - 1)) and G_bad == old(G_bad)"},
          doc="closes the scope on normal and exceptional exit (finally), runs its cleanups; raises iff a cleanup raised")
 contract("abs:Context.__setattr__", trusted=True, params={"self": "ref:Context"}, pos_params=["self", "attr", "value"],
-         modifies=["G_ctx_scenario", "G_ctx_feature"],
+         modifies=["G_ctx_scenario", "G_ctx_feature", "G_ctx_rule"],
          ensures={"scenario": "G_ctx_scenario == ite(attr == 'scenario', value, old(G_ctx_scenario))",
+                  "rule": "G_ctx_rule == ite(attr == 'rule', value, old(G_ctx_rule))",
                   "feature": "G_ctx_feature == ite(attr == 'feature', value, old(G_ctx_feature))"},
          doc="attribute store in the innermost scope")
 contract("abs:Context.__getattr__", trusted=True, params={"self": "ref:Context"}, pos_params=["self", "attr"],
          pure=True,
-         raises=[Raises("AttributeError", when="attr == 'scenario' and G_ctx_scenario is ABSENT")],
+         raises=[Raises("AttributeError", when="(attr == 'scenario' and G_ctx_scenario is ABSENT) or "
+                                               "(attr == 'rule' and G_ctx_rule is ABSENT)")],
          ensures={"scenario": "implies(attr == 'scenario', result == G_ctx_scenario)",
+                  "rule": "implies(attr == 'rule', result == G_ctx_rule)",
                   "feature": "implies(attr == 'feature', result == G_ctx_feature)",
                   "aborted": "implies(attr == 'aborted', result == G_ctx_aborted)"},
          doc="attribute lookup through the open scopes")
@@ -114,7 +125,7 @@ contract(R + "ModelRunner.run_hook", props=["C12", "C01"],
                        "implies(not str_in('tag', name) and not str_in('all', name), typeof_is(args[0], 'BasicStatement'))",
                    "context-attributes-are-model-elements":
                        "(G_ctx_scenario is ABSENT or typeof_is(G_ctx_scenario, 'Scenario')) and "
-                       "(is_none(G_ctx_feature) or typeof_is(G_ctx_feature, 'Feature'))"},
+                       "(is_none(G_ctx_feature) or typeof_is(G_ctx_feature, 'Feature')) and (G_ctx_rule is ABSENT or typeof_is(G_ctx_rule, 'Rule'))"},
          callsites={"self.hooks[name]": "user:hook"},
          with_items={"context.use_with_user_mode()": ("ctx:user_mode.enter", "ctx:user_mode.exit")},
          modifies=["G_nhooks", "G_hook_name", "G_hook_arg", "G_bad", "G_ctx_aborted", "self.hook_failures",
@@ -143,18 +154,18 @@ contract(R + "ModelRunner.run_hook", props=["C12", "C01"],
                  "and not str_in('tag', name) and not str_in('all', name) and len(args) > 0, unchanged_except('hook_failed', args[0]) and unchanged_except('error_message', args[0]) and unchanged_except('exception', args[0]) and unchanged_except('exc_traceback', args[0]) and G_ctx_aborted == old(G_ctx_aborted))",
              "tag-hook-failure-touches-only-that-element":
                  "implies(not self.config.dry_run and has_key(self.hooks, name) and hook_raises(old(G_nhooks)) "
-                 "and str_in('tag', name), unchanged_except('hook_failed', ite(G_ctx_scenario is ABSENT, G_ctx_feature, G_ctx_scenario)) and unchanged_except('error_message', ite(G_ctx_scenario is ABSENT, G_ctx_feature, G_ctx_scenario)) and unchanged_except('exception', ite(G_ctx_scenario is ABSENT, G_ctx_feature, G_ctx_scenario)) and unchanged_except('exc_traceback', ite(G_ctx_scenario is ABSENT, G_ctx_feature, G_ctx_scenario)) and G_ctx_aborted == old(G_ctx_aborted))",
+                 "and str_in('tag', name), unchanged_except('hook_failed', hook_target()) and unchanged_except('error_message', hook_target()) and unchanged_except('exception', hook_target()) and unchanged_except('exc_traceback', hook_target()) and G_ctx_aborted == old(G_ctx_aborted))",
              "all-hook-failure-touches-no-element":
                  "implies(not self.config.dry_run and has_key(self.hooks, name) and hook_raises(old(G_nhooks)) "
                  "and not str_in('tag', name) and str_in('all', name), unchanged('hook_failed') and unchanged('error_message') and unchanged('exception') and unchanged('exc_traceback'))",
              "all-hook-failure-aborts":
                  "implies(not self.config.dry_run and has_key(self.hooks, name) and hook_raises(old(G_nhooks)) "
                  "and not str_in('tag', name) and str_in('all', name), G_ctx_aborted == True)",
-             "tag-hook-failure-marks-current-scenario-else-feature":
+             "tag-hook-failure-marks-innermost-of-scenario-rule-feature":
                  "implies(not self.config.dry_run and has_key(self.hooks, name) and hook_raises(old(G_nhooks)) "
                  "and str_in('tag', name) and len(args) > 0, "
-                 "implies(truthy(ite(G_ctx_scenario is ABSENT, G_ctx_feature, G_ctx_scenario)), "
-                 "as_ref(ite(G_ctx_scenario is ABSENT, G_ctx_feature, G_ctx_scenario), 'BasicStatement').hook_failed == True))",
+                 "implies(truthy(hook_target()), "
+                 "as_ref(hook_target(), 'BasicStatement').hook_failed == True))",
          },
          doc="an exception in a hook never escapes (no `raises` entry): it is recorded on the element concerned")
 
